@@ -227,6 +227,43 @@ theorem tamper_flag_fails (H : HashFns ι α) (G : GoodHash H) {rk : α → Nat}
       rw [hx] at hv
       simp at hv
 
+/-- two trees over id lists with the same root hash are over the same list -/
+theorem built_hash_inj (H : HashFns ι α) (G : GoodHash H) {t : MTree α} {l : List ι} (hB : Built H t l) :
+    ∀ {t' : MTree α} {l' : List ι}, Built H t' l' → t.hash = t'.hash → l = l' := by
+  induction hB with
+  | leaf x =>
+    intro t' l' hB' h
+    cases hB' with
+    | leaf y => simp only [MTree.hash] at h; rw [G.leaf_inj _ _ h]
+    | node _ _ => exact absurd h (G.leaf_ne_node _ _ _)
+  | node _ _ ih1 ih2 =>
+    intro t' l' hB' h
+    cases hB' with
+    | leaf y => exact absurd h.symm (G.leaf_ne_node _ _ _)
+    | node h1 h2 =>
+      simp only [MTree.hash] at h
+      obtain ⟨e1, e2⟩ := G.node_inj _ _ _ _ h
+      rw [ih1 h1 e1, ih2 h2 e2]
+
+/-- **`merkleRoot` is injective** (the root commits to the whole id list, used by C03). -/
+theorem merkleRoot_injective (H : HashFns ι α) (G : GoodHash H) (l l' : List ι)
+    (h : merkleRoot H l = merkleRoot H l') : l = l' := by
+  by_cases hl : l = []
+  · subst hl
+    by_cases hl' : l' = []
+    · exact hl'.symm
+    · obtain ⟨t', _, hB', hr'⟩ := build_built H l' hl'
+      rw [merkleRoot_nil, hr'] at h
+      exact absurd h (hB'.hash_ne_empty G)
+  · obtain ⟨t, _, hB, hr⟩ := build_built H l hl
+    by_cases hl' : l' = []
+    · subst hl'
+      rw [merkleRoot_nil, hr] at h
+      exact absurd h.symm (hB.hash_ne_empty G)
+    · obtain ⟨t', _, hB', hr'⟩ := build_built H l' hl'
+      rw [hr, hr'] at h
+      exact built_hash_inj H G hB hB' h
+
 /-- `buildMerkleTree` returns nil exactly for the empty list; in particular the nil-dereference
     branch of the model (`left.hash` on a nil child) is never taken. -/
 theorem build_none_iff (H : HashFns ι α) (l : List ι) : build H l = none ↔ l = [] := by
